@@ -596,6 +596,15 @@ class OnionWorld:
                 return self.log("JoinResume", n=n, cid=spec_cid, k=k)
         raise KeyError(("held join", n, spec_cid, k))
 
+    def idle(self, ms):
+        """let `ms` of virtual time pass: every timer due in it fires (as logged steps), then the clock stands at the end of
+        the interval (logged as a Tick before the next step)"""
+        target = self.now_ms() + ms
+        self.run_until(target)
+        when = self.t0 + target / MS
+        if self.loop.time() < when:
+            self.loop._vt = when
+
     # -- network steps
     def deliver(self, seq):
         i = self.find(seq)
